@@ -13,7 +13,7 @@ def chainTable : List ChainParams := [
     maxMoney := 2100000000000000, powLimit := 26959946667150639794667015087019630673637144422540572481103610249215 },
   { name := "signet", messageStart := [10, 3, 207, 64],
     pubkeyAddr := 111, scriptAddr := 196, secretKey := 239, bech32Hrp := "tb",
-    maxMoney := 2100000000000000, powLimit := 26959946667150639794667015087019630673637144422540572481103610249215 },
+    maxMoney := 2100000000000000, powLimit := 23931797032512946448355080119003371062739634849393183336097152401145856 },
   { name := "regtest", messageStart := [250, 191, 181, 218],
     pubkeyAddr := 111, scriptAddr := 196, secretKey := 239, bech32Hrp := "bcrt",
     maxMoney := 2100000000000000, powLimit := 57896044618658097711785492504343953926634992332820282019728792003956564819967 } ]
